@@ -1427,3 +1427,67 @@ func errorPropagated(c ssa.CallInstruction) bool {
 	}
 	return checked
 }
+
+// evalString partially evaluates a string-valued SSA value: constants, concatenation, and calls of
+// static functions whose every return is itself evaluable in terms of their parameters (key-prefix
+// helpers). env binds parameters of the function being evaluated.
+func evalString(v ssa.Value, env map[*ssa.Parameter]string, depth int) (string, bool) {
+	if depth > 6 || v == nil {
+		return "", false
+	}
+	switch x := v.(type) {
+	case *ssa.Const:
+		if x.Value != nil && x.Value.Kind() == constant.String {
+			return constant.StringVal(x.Value), true
+		}
+		return "", false
+	case *ssa.Parameter:
+		s, ok := env[x]
+		return s, ok
+	case *ssa.BinOp:
+		if x.Op != token.ADD {
+			return "", false
+		}
+		a, ok1 := evalString(x.X, env, depth+1)
+		b, ok2 := evalString(x.Y, env, depth+1)
+		return a + b, ok1 && ok2
+	case *ssa.ChangeType:
+		return evalString(x.X, env, depth+1)
+	case *ssa.Convert:
+		return evalString(x.X, env, depth+1)
+	case *ssa.Phi:
+		var first string
+		for i, e := range x.Edges {
+			s, ok := evalString(e, env, depth+1)
+			if !ok || (i > 0 && s != first) {
+				return "", false
+			}
+			first = s
+		}
+		return first, len(x.Edges) > 0
+	case *ssa.Call:
+		g := x.Common().StaticCallee()
+		if g == nil || len(g.Blocks) == 0 || g.Signature.Results().Len() != 1 {
+			return "", false
+		}
+		sub := map[*ssa.Parameter]string{}
+		for i, a := range x.Common().Args {
+			if i < len(g.Params) {
+				if s, ok := evalString(a, env, depth+1); ok {
+					sub[g.Params[i]] = s
+				}
+			}
+		}
+		var first string
+		rets := Returns(g)
+		for i, ret := range rets {
+			s, ok := evalString(RetVal(ret, 0), sub, depth+1)
+			if !ok || (i > 0 && s != first) {
+				return "", false
+			}
+			first = s
+		}
+		return first, len(rets) > 0
+	}
+	return "", false
+}
